@@ -1,6 +1,6 @@
 (* C08: retries are safe and bounded.  Property theorems only. *)
 From Coq Require Import List ZArith Bool.
-From Bfe Require Import lib.Val model.Retry proofs.RetryProofs.
+From Bfe Require Import lib.Val model.Retry proofs.RetryProofs run.RunC08 proofs.RetryTieProofs.
 Import ListNotations.
 Open Scope Z_scope.
 
@@ -38,6 +38,22 @@ Theorem C08_cross_distinct : forall subs excl rnd k,
 Proof. exact cross_distinct. Qed.
 Print Assumptions C08_cross_distinct.
 
+(* The property predicate the harness evaluates on the implementation's observations (prop_body: bounded, resend only
+   if safe, never replayed, bytes seen exactly by the live attempts, cross attempts leave the first sub-cluster, a status
+   is returned) holds of EVERY observation the model allows, for every request, step script and every sequence of
+   balancer choices: the model satisfies the property on all inputs (no known-finding class). *)
+Theorem C08_prop_of_model : forall i choices o,
+  0 <= retry_max (i_cfg i) -> 0 <= cross_retry (i_cfg i) ->
+  model_obs i choices = Some o -> prop_body i o = true.
+Proof. exact prop_of_model. Qed.
+Print Assumptions C08_prop_of_model.
+
+Theorem C08_prop_of_run : forall v i,
+  decode_C08 v = Some i -> 0 <= retry_max (i_cfg i) -> 0 <= cross_retry (i_cfg i) ->
+  run_C08 v <> VErr 1 -> prop_C08 v (run_C08 v) = true.
+Proof. exact prop_of_run. Qed.
+Print Assumptions C08_prop_of_run.
+
 (* Non-vacuity. *)
 Example C08_get_retried :
   attempts (mkCfg 2 1 1) (mkReq true true) [EvAttempt false ReadHdrErr; EvAttempt false ConnectErr; EvAttempt false WriteErr; EvAttempt false Ok; EvAttempt false Ok]
@@ -52,3 +68,7 @@ Example C08_budget :
 Proof. exact ex_budget. Qed.
 Example C08_select : random_select_exclude [(100, false); (0, false); (0, true); (0, false)] 0 5 = Some 3%nat.
 Proof. exact ex_select. Qed.
+Example C08_model_obs_example :
+  model_obs (mkI (mkCfg 1 1 1) (mkReq true true) [1; 2; 0]) [0; 1; 4; 2]
+  = Some (VL [vLZ [0; 1; 4]; vLZ [0; 4]; VZ 500]).
+Proof. reflexivity. Qed.
